@@ -270,6 +270,9 @@ def main():
             if f.get("property") == "C10" and f.get("status", "open") == "open" and f["key"] not in [k["key"] for k in chk.known]:
                 chk.known.append(f)
     # 1. translator
+    import time as _t
+    def ph(x):
+        sys.stderr.write("[C10 %.0fs] %s\n" % (_t.time() - chk.t0, x)); sys.stderr.flush()
     rc, tout = vlib.sh("python3 %s/translate/tr_guards.py" % V)
     trans_problems = [l for l in tout.splitlines() if l.startswith("PROBLEM")]
     gj = {}
@@ -277,8 +280,10 @@ def main():
         gj = json.load(open(os.path.join(V, "coq/Gen/guards.json")))
     except Exception as e:
         trans_problems.append("PROBLEM guards.json unreadable: %s" % e)
+    ph("translator done")
     # 2. proofs
     proved = chk.prove("Properties_C10", extra_targets=["Gen/Recurse.vo", "Gen/GuardForms.vo"])
+    ph("proofs done: %s" % proved)
     chk.cov["trusted_base"] += [
         "Coq 8.16.1 kernel, vm_compute (no native_compute)",
         "translator translate/tr_guards.py (block-tree exit-path analysis of every function using D->recurse_level; textual pinning of the guard "
@@ -442,7 +447,7 @@ def main():
                 acc = M.q("frag %d 2" % i) == "1"
                 addA(op, (i,), {"pred": None, "accept": acc, "truth": 0 <= i < 2, "tag": "frag"})
                 nontrivial.add((op, i))
-    import time as _t
+    ph("builds done; running A (%d cases)" % len(A))
     t_a = _t.time()
     resA = run_cases(exe, A)
     chk.notes.append("phase A: %d cases in %.1fs" % (len(A), _t.time() - t_a))
@@ -551,6 +556,7 @@ def main():
             cmds.append(cmd); preds.append((q, pr))
         cmds.append("op get_carray carray 0x28")
         C.append({"id": "C%d" % k, "mode": mode, "p0": p0, "p1": p1, "cmds": cmds, "preds": preds})
+    ph("A judged; running C")
     resC = run_cases(exe, C)
     for c in C:
         r = resC.get(c["id"])
@@ -577,6 +583,7 @@ def main():
         sweep = keep + rng.sample(rest, max(0, 9000 - len(keep)))
     for k, c in enumerate(sweep):
         c["id"] = "B%d" % k
+    ph("running B (%d tuples)" % len(sweep))
     t_b = _t.time()
     resB = run_cases(exe, sweep)
     chk.notes.append("phase B: %d tuples in %.1fs" % (len(sweep), _t.time() - t_b))
@@ -621,6 +628,7 @@ def main():
                        "how": "printf 'case x RDWR none none none 1\\n%s\\n' | <harness/C10/api built against the asan library> <dir>" % c["cmds"][0],
                        "others": [w for w, _, _ in l[1:8]]})
 
+    ph("B done")
     # ---------------------------------------------------------------- D. replay the recorded witnesses
     for f in chk.known:
         w = f.get("witness", {})
